@@ -121,7 +121,7 @@ PROPERTIES = {
     },
     "C11": {
         "level": "proof",
-        "verus_units": ["arith_widen", "arith128", "widediv", "nofrac", "fracops", "round@*", "transc"],
+        "verus_units": ["arith_widen", "arith128", "widediv", "nofrac", "fracops", "round@*", "transc", "leaves"],
         "kani": [{"harness": h, "classes": ["panic"]} for h in
                  _mods("arith8", ["i4f4", "i0f8", "u4f4", "u0f8"], FORMS) + ["arith8::abs_forms_i8"] + TFH
                  + ["float::check_to_f32", "float::check_to_f64", "float::check_kind_f32", "float::check_kind_f64"]
@@ -136,6 +136,7 @@ PROPERTIES = {
     },
     "C08": {
         "level": "other",
+        "verus_units": ["leaves"],
         "kani": ["parse::parse_u8_hex", "parse::parse_u8_oct", "parse::parse_u8_bin", "parse::parse_i8_hex", "parse::parse_error_kinds",
                  "parse::parse_u8_dec", "parse::parse_i8_dec"],
         "kani_thorough": ["parse::parse_u8_dec_long", "parse::parse_i8_dec_long"],
@@ -148,6 +149,7 @@ PROPERTIES = {
     },
     "C09": {
         "level": "other",
+        "verus_units": ["leaves"],
         "kani": ["display::display_default", "display::display_precision", "display::display_plus", "display::display_lower_hex", "display::display_binary"],
         "kani_thorough": ["display::display_sign", "display::display_zero_pad", "display::display_width", "display::display_upper_hex",
                           "display::display_octal", "display::display_alt_hex"],
